@@ -491,8 +491,17 @@ func (x *Exec) applyContract(st *State, in ssa.Instruction, fc *FuncContract, si
 		}
 	}
 	for _, e := range fc.Ensures {
-		g := x.evalBool(penv, e)
+		// a postcondition that cannot be evaluated at the call site (it mentions a local of the callee) is private to
+		// the callee's body: proved there, not assumed here. Anything else that fails to evaluate stays a bind error.
+		g, ok := x.evalBoolAtCall(penv, e)
+		if !ok {
+			continue
+		}
 		st.assume(g)
+	}
+	// definitional clauses (closure rules of inductively defined ghost predicates)
+	for _, gcl := range fc.Grants {
+		st.assume(x.evalBool(penv, gcl))
 	}
 	// ghost updates defined by the contract (performed at the callee's return)
 	for _, gs := range fc.Sets {
